@@ -57,6 +57,8 @@ func execPipe(c pipeCase, src core.Source) (res core.Result) {
 	afterClose := map[int]string{}
 	s := sched.New(src, false)
 	uninstall := s.Install()
+	defer uninstall()
+	registered := -1
 	s.Go("main", func() {
 		switch c.Topology {
 		case "Fork":
@@ -67,6 +69,9 @@ func execPipe(c pipeCase, src core.Source) (res core.Result) {
 			mid := Q.Split(group, input, uint(c.FanOut))
 			outputs = []col.QueueLike[int]{Q.Join(group, mid)}
 		}
+		// the helpers must be registered with the caller's wait group before the function returns:
+		// otherwise a Wait() right after the call can return before a helper has even started
+		registered = group.n
 		s.Go("feeder", func() {
 			for _, v := range values {
 				input.AddValue(v)
@@ -94,7 +99,6 @@ func execPipe(c pipeCase, src core.Source) (res core.Result) {
 		}
 	})
 	r := s.Run()
-	uninstall()
 	desc := fmt.Sprintf("%s(fan-out %d, capacity %d) over the stream %v", c.Topology, c.FanOut, c.Cap, values)
 	if r.Aborted != "" {
 		panic(core.HarnessError{Msg: "scheduler aborted: " + r.Aborted})
@@ -104,6 +108,14 @@ func execPipe(c pipeCase, src core.Source) (res core.Result) {
 			res.Violation = core.Violate("C06/panicked", "%s: goroutine %s panicked: %s", desc, g.Name, lib.Short(g.Panic))
 			return
 		}
+	}
+	helpers := 1
+	if c.Topology == "SplitJoin" {
+		helpers = 2
+	}
+	if registered != helpers {
+		res.Violation = core.Violate("C06/wait-group-not-registered", "%s: when the function returned the caller's wait group counted %d helper goroutine(s), expected %d (a Wait() now could return before the helpers have run)", desc, registered, helpers)
+		return
 	}
 	if r.Deadlock {
 		res.Violation = core.Violate("C06/deadlock/"+c.Topology, "%s does not terminate; blocked: %v; received so far %v", desc, r.Blocked, received)
@@ -150,10 +162,12 @@ func execPipe(c pipeCase, src core.Source) (res core.Result) {
 func TestC06(t *testing.T) {
 	r := core.Begin(t, "C06")
 	defer r.End()
-	// every schedule of the smallest pipelines (bounded: the schedule space explodes quickly)
-	core.DFS(r, core.Check[pipeCase]{Name: "all-schedules-tiny", Bounded: true,
-		Gen: func(s core.Source) pipeCase {
-			return pipeCase{Topology: core.Pick(s, []string{"Fork", "Split"}, "topology"), Length: s.Choose(2, "length"), FanOut: 2, Cap: 1}
-		}, Exec: execPipe}, r.N(12000, 400000))
+	// every schedule of the smallest pipelines, one bounded enumeration per configuration (the schedule
+	// space explodes quickly: the bound keeps the tier's budget, exhaustive=false is reported when it is hit)
+	for _, cfg := range []pipeCase{{"Fork", 0, 2, 1}, {"Split", 0, 2, 1}, {"Split", 1, 2, 1}, {"Fork", 1, 2, 1}, {"Split", 1, 3, 1}, {"SplitJoin", 0, 2, 1}, {"SplitJoin", 1, 2, 1}} {
+		cfg := cfg
+		name := fmt.Sprintf("all-schedules-%s-len%d-fan%d", cfg.Topology, cfg.Length, cfg.FanOut)
+		core.DFS(r, core.Check[pipeCase]{Name: name, Bounded: true, Gen: func(core.Source) pipeCase { return cfg }, Exec: execPipe}, r.N(2500, 100000))
+	}
 	core.Rapid(r, core.Check[pipeCase]{Name: "sampled-schedules", Gen: genPipe(r.N(4, 6)), Exec: execPipe}, r.N(2500, 40000))
 }
